@@ -1,4 +1,4 @@
-(* regenerated on every run by harness/cmd/translate (proxymiss) from apricot/cacheproxy Service.GetDetectorsForHosts:
-   on a cache miss 0 the whole host list goes to the backend, 1 the backend's answer for that host is used,
-   2 the backend's answer for that host does not reach the result *)
+(* regenerated on every run by harness/cmd/translate (proxymiss) from a run of apricot/cacheproxy.Service over an
+   inventory that grows after the proxy's snapshot (h04 -proxyprobe): on a cache miss 0 the whole host list goes to
+   the backend, 1 the backend's answer for that host is used, 2 some answer is not the backend's *)
 Definition proxy_miss : nat := 0.
